@@ -17,4 +17,5 @@ def run(ctx):
     S.r51_strategy_table(ctx, sc)
     S.r52_handler_cannot_raise(ctx, sc)
     S.r53_step_finally(ctx, sc)
+    S.r54_strategy_setter(ctx, sc)
     S.r21_typestate(ctx, sc)
